@@ -205,38 +205,25 @@ Theorem c12_convert_lexer_error_off_boundary : forall s bs be sid,
 Proof. exact convert_lexer_error_off_boundary. Qed.
 Print Assumptions c12_convert_lexer_error_off_boundary.
 
-(* Finding F9 is fixed by commit d3106b1 ("error spans are converted from byte to character offsets once, when the error
-   is composed against its source"): Model/Span.v (owned by C13) mirrors the repaired `composed`.  Every span the lexer,
-   the parser and the resolver attach to an error is a pair of BYTE offsets of character boundaries of the source, in
-   order; for all of those `composed` cannot panic -- FULL strength over the spans that exist (the former
-   c12_composed_total_refuted witness, the byte span 2..3 of "e-acute +", is now located): *)
-Theorem c12_composed_total_on_source_spans : forall s sid bs be,
-  boundary s bs -> boundary s be -> bs <= be ->
-  composed_one [(sid, s)] (Some (Span bs be sid)) <> Panic.
-Proof.
-  intros s sid bs be (cs & Hcs & Es) (ce & Hce & Ee) Hle.
-  assert (cs <= ce).
-  { destruct (Nat.le_gt_cases cs ce) as [|Hgt]; [assumption|].
-    pose proof (byte_of_char_strict s ce cs Hgt Hcs). rewrite Es, Ee in *.
-    exfalso. apply (Nat.lt_irrefl bs). eapply Nat.le_lt_trans; eassumption. }
-  rewrite (composed_one_bytes [(sid, s)] s sid bs be cs ce); try assumption; [discriminate|].
-  cbn [find fst]. rewrite Nat.eqb_refl. reflexivity.
-Qed.
-Print Assumptions c12_composed_total_on_source_spans.
+(* Finding F9 is fixed by commits d3106b1 ("error spans are converted from byte to character offsets once, when the error
+   is composed against its source") and 0301a92 ("the byte-to-character conversion of an error span is total"): Model/Span.v
+   (owned by C13) mirrors the repaired `composed`.  The location assert! cannot fire any more (the converted offsets are at
+   most the character length).  FULL strength over every ordered span, of whatever unit or size, in any tree: *)
+Theorem c12_composed_total : forall tree sp, sp_start sp <= sp_end sp -> composed_one tree (Some sp) <> Panic.
+Proof. exact composed_one_total. Qed.
+Print Assumptions c12_composed_total.
 
-(* ... and for any span, of whatever unit, that is ordered and inside the character length *)
-Theorem c12_composed_total_partial : forall s sp,
-  sp_start sp <= sp_end sp -> sp_start sp <= length s -> sp_end sp <= length s ->
-  composed_one [(sp_src sp, s)] (Some sp) <> Panic.
-Proof. exact composed_one_total_in_bounds. Qed.
-Print Assumptions c12_composed_total_partial.
+(* What remains is the assert of ariadne's Label::new inside compose_display, on a span whose converted end is before its
+   start; `composed` panics exactly then.  No lexer, parser or resolver span is reversed, and spans of PL / RQ documents
+   from JSON are never composed against a source. *)
+Theorem c12_composed_panics_iff : forall s sp,
+  composed_one [(sp_src sp, s)] (Some sp) = Panic <-> chars_before s (sp_end sp) < chars_before s (sp_start sp).
+Proof. exact composed_one_panics_iff. Qed.
+Print Assumptions c12_composed_panics_iff.
 
-(* The statement over ALL spans stays false of the function (its assert!, and the assert of ariadne's Label::new on a
-   reversed span, are still there): a span that points past the text panics.  No entry point of this check makes one:
-   spans of PL / RQ documents from JSON are never composed against a source. *)
-Theorem c12_composed_total_refuted : exists s sp, composed_one [(sp_src sp, s)] (Some sp) = Panic.
-Proof. exists [233; 43]%N, (Span 9 9 1). vm_compute. reflexivity. Qed.
-Print Assumptions c12_composed_total_refuted.
+Theorem c12_composed_reversed_refuted : exists s sp, composed_one [(sp_src sp, s)] (Some sp) = Panic.
+Proof. exists [97; 98]%N, (Span 1 0 1). vm_compute. reflexivity. Qed.
+Print Assumptions c12_composed_reversed_refuted.
 
 (* ------------------------------------------------------------------ sites added since the last baseline *)
 (* Model/SitesBaseline.v was re-recorded on /repo d060422; every row that grew was read, and the added site is
